@@ -78,7 +78,41 @@ def run_bpq(ctx):
                             "tlc MC_BoundedPQ_seq{4,5}.cfg -> rvh replay-bpq; rvh trace-bpq -> tlc Trace_BoundedPQ (linearizability)")
 
 
-MODULES = {"bpq": run_bpq}
+def run_segbuf(ctx):
+    """SegBuffer.tla <-> ragc-core/src/segment_buffer.rs (BufferedSegments / SegmentPartList of the C++-style worker pipeline)."""
+    quick = ctx.tier == "quick"
+    r = C.run_tlc("MC_SegBuffer", "MC_SegBuffer.cfg", workdir=ctx.work, workers=6, xmx="6g", timeout=1500)
+    C.tlc_must_pass(r, "MC_SegBuffer")
+    ctx.add_mc("MC_SegBuffer", r)
+    # REPLAY: random walks of the same model (12 calls each), every call compared on the real object
+    total = 0
+    for i in range(2 if quick else 6):
+        r = C.run_tlc("MC_SegBuffer", "MC_SegBuffer_sim.cfg", workdir=ctx.work, workers=1, simulate=(30 if quick else 150), depth=13,
+                      seed=ctx.seed * 50 + i, coverage=False, timeout=1500)
+        if not r.ok:
+            raise C.ToolError("MC_SegBuffer simulation failed: %s %s" % (r.violated, (r.error or "")[:500]))
+        beh = sorted({p[0] for (t, p) in r.printed if t == "REPLAY"})
+        if not beh:
+            raise C.ToolError("no REPLAY behaviours from MC_SegBuffer_sim")
+        path = os.path.join(ctx.work, "segbuf_%d.ndjson" % i)
+        with open(path, "w") as fh:
+            fh.write("\n".join(beh) + "\n")
+        _, out, _, _ = C.rvh(["replay-segbuf", "--in", path])
+        res = json.loads(out)
+        total += res["behaviours"]
+        ctx.evaluations += res["behaviours"]
+        ctx.traces += res["behaviours"] - len(res["fails"])
+        # non-trivial: the walk moves NEW segments into groups, or redistributes, and then reads something back
+        ctx.nontrivial += sum(1 for b in beh if ('"process_new"' in b or '"distribute"' in b) and '"some":true' in b)
+        if i == 0:
+            ctx.sample({"segbuf_replay_behaviour": json.loads(beh[0])["steps"][:6]})
+        for j, f in enumerate(res["fails"][:5]):
+            ctx.violation("segbuf_replay_%d_%d" % (i, j), {"kind": "REPLAY-SegBuffer", "sig": {"module": "SegBuffer", "kind": "replay"}, "fail": f})
+    ctx.checker_cmds.append("tlc MC_SegBuffer.cfg (all call sequences up to 4 calls: TypeOK, Conserved, SortedAfterSort, OneGroupPerKey); "
+                            "tlc -simulate MC_SegBuffer_sim.cfg -> rvh replay-segbuf (%d behaviours)" % total)
+
+
+MODULES = {"bpq": run_bpq, "segbuf": run_segbuf}
 
 
 def run(ctx):
